@@ -18,6 +18,7 @@ import (
 	"crypto"
 	"crypto/rand"
 	"crypto/rsa"
+	"errors"
 
 	"github.com/lestrrat-go/jwx/v2/jwk"
 )
@@ -61,7 +62,11 @@ func encryptPublicKeyRSAPKCS1v15(plaintext []byte, key jwk.Key) ([]byte, error) 
 	if key.Raw(rsaKey) != nil {
 		return nil, ErrKeyTypeMismatch
 	}
-	return rsa.EncryptPKCS1v15(rand.Reader, rsaKey, plaintext)
+	ciphertext, err := rsa.EncryptPKCS1v15(rand.Reader, rsaKey, plaintext)
+	if errors.Is(err, rsa.ErrMessageTooLong) {
+		return nil, ErrInvalidPlaintextLength
+	}
+	return ciphertext, err
 }
 
 func encryptPublicKeyRSAOAEP(plaintext []byte, key jwk.Key, hash crypto.Hash, label []byte) ([]byte, error) {
@@ -69,7 +74,11 @@ func encryptPublicKeyRSAOAEP(plaintext []byte, key jwk.Key, hash crypto.Hash, la
 	if key.Raw(rsaKey) != nil {
 		return nil, ErrKeyTypeMismatch
 	}
-	return rsa.EncryptOAEP(hash.New(), rand.Reader, rsaKey, plaintext, label)
+	ciphertext, err := rsa.EncryptOAEP(hash.New(), rand.Reader, rsaKey, plaintext, label)
+	if errors.Is(err, rsa.ErrMessageTooLong) {
+		return nil, ErrInvalidPlaintextLength
+	}
+	return ciphertext, err
 }
 
 // DecryptPrivateKey decrypts a message using a private key and the specified algorithm.
